@@ -235,9 +235,16 @@ theorem ensureHasParent_pres (layers : List VPath) (hl : Layers I layers) (p : S
   split
   · apply Preserves.bind (exists_pres layers hl.toObsLayers _)
     intro b; split
-    · apply Preserves.bindQ _ (Preserves.ret _) (writePath_inUpper layers _)
-      intro wp hwp
-      exact pres_createDirAll wp (hwp.all hl)
+    · -- the two added observer steps: the parent is read through the merged view and typed
+      apply Preserves.bindQ _ (readPath_pres layers hl.toObsLayers _)
+        (readPath_ret layers hl.nonempty _)
+      intro rp hrp
+      apply Preserves.bind (pres_isDir rp (hrp.obs hl.toObsLayers))
+      intro isd; split
+      · apply Preserves.bindQ _ (Preserves.ret _) (writePath_inUpper layers _)
+        intro wp hwp
+        exact pres_createDirAll wp (hwp.all hl)
+      · exact Preserves.failK _
     · exact Preserves.failK _
   · exact Preserves.failK _
 
